@@ -24,7 +24,8 @@ RULE = ("Generated scenarios (Hypothesis; exhaustive product for n<=2 files in t
         "flush via an overflowing operation} x n in 1..4 files, each with a role {modified, read-only, "
         "untouched}, an initial state {existing, absent: the outside change then CREATES it} and an outside "
         "change {before its first buffered access, after it, never}; access "
-        "order, position of the 'after' change and exit order are generated; a file may have a SECOND "
+        "order, position of the 'after' change and exit order are generated; an enumerated sub-family "
+        "uses a file name that is a SYMBOLIC LINK whose target the outside writer changes; a file may have a SECOND "
         "object bound to it that only reads (so two collections are registered for one buffer entry); a "
         "file that was only read before a forced flush may be modified after it. The outside writer always "
         "changes (size, mtime_ns). Oracle: conflict set = modified AND changed-after; a per-object "
@@ -340,7 +341,76 @@ def run_case(case):
         shutil.rmtree(d, ignore_errors=True)
 
 
+def run_symlink_case(case):
+    """The collection's file name is a SYMBOLIC LINK; the outside writer changes the file it points
+    to. variant: 'conflict' (buffered modification, then outside change: the exit must refuse),
+    'readonly' (read, outside change: nothing written, no error), 'before' (outside change before
+    the first buffered access: no conflict, the modification becomes visible under the name)."""
+    ci = CLASSES[case["class"]]
+    cls, kind = ci.cls, ci.kind
+    variant, ctxk = case["variant"], case["ctx"]
+    d = wm.case_dir()
+    reset_class_state()
+    try:
+        real = JsonRes(os.path.join(d, "real.json"))
+        init = _init_doc(kind, 0)
+        real.write(copy.deepcopy(init))
+        link = os.path.join(d, "link.json")
+        os.symlink(real.path, link)
+        named = JsonRes(link)          # what a reader of the collection's file name sees
+        obj = cls(filename=link)
+        outside = _outside_doc(kind, 0, variant)
+        ctx = obj.buffered if ctxk == "obj" else cls.buffer_backend()
+        ctx.__enter__()
+        err = None
+        try:
+            if variant == "before":
+                real.write(copy.deepcopy(outside))
+                _mutate(obj, kind, 5)
+                expect = _mutated(outside, kind, 5)
+            elif variant == "conflict":
+                if case.get("read_first"):
+                    obj()
+                _mutate(obj, kind, 5)
+                real.write(copy.deepcopy(outside))
+                expect = outside
+            else:
+                got = obj()
+                if got != init:
+                    raise Mismatch("buffered_read", got=got, expected=init)
+                real.write(copy.deepcopy(outside))
+                expect = outside
+        finally:
+            try:
+                ctx.__exit__(None, None, None)
+            except (BufferedError, MetadataError) as e:
+                err = e
+        if variant == "conflict" and err is None:
+            raise Mismatch("no_error_for_conflict", variant=variant, symlink=True)
+        if variant != "conflict" and err is not None:
+            raise Mismatch("spurious_buffered_error", where="exit", symlink=True,
+                           error=f"{type(err).__name__}: {err}"[:160])
+        got = named.read()
+        if got != expect:
+            raise Mismatch("outside_content_overwritten" if variant != "before" else "clean_file_not_written",
+                           symlink=True, got=got, expected=expect)
+        if variant != "before" and real.read() != outside:
+            raise Mismatch("outside_content_overwritten", symlink=True, target=True, got=real.read(),
+                           expected=outside)
+        if cls.get_current_buffer_size() != 0:
+            raise Mismatch("buffer_size_nonzero", size=cls.get_current_buffer_size())
+    finally:
+        reset_class_state()
+        shutil.rmtree(d, ignore_errors=True)
+
+
 def _fails(case):
+    if case.get("symlink"):
+        try:
+            run_symlink_case(copy.deepcopy(case))
+        except Mismatch as mm:
+            return mm.describe()
+        return None
     try:
         run_case(copy.deepcopy(case))
     except Mismatch as mm:
@@ -401,6 +471,18 @@ def run_shard(spec, seed, tier, active):
         record(case)
 
     fail = None
+    if spec.get("rep", 0) == 0 and spec["mode"] == "random":
+        # enumerated: the file name is a symbolic link and the outside writer changes its target
+        for ctx in ("obj", "cls"):
+            for variant in ("conflict", "readonly", "before"):
+                for rf in ((False, True) if variant == "conflict" else (False,)):
+                    case = {"property": ID, "engine": "c07", "class": cname, "symlink": True, "ctx": ctx,
+                            "variant": variant, "read_first": rf}
+                    d = _fails(case)
+                    acc.case([h64("symlink", cname, ctx, variant, rf)], case if len(acc.samples) < 1 else None,
+                             {"symlink_cases": 1})
+                    if d is not None and not acc.failures:
+                        acc.failures.append({"case": case, "desc": d})
     if spec["mode"] == "exhaustive":
         try:
             for ctx in CTX:
